@@ -102,7 +102,7 @@ def run(chk):
         "checker_cmd": "cd lean && lake build %s" % MODULE, "trusted_base": TRUSTED_BASE, "forbidden_constructs": pr["forbidden_constructs"],
         "evaluations": runs + race_runs, "distinct_nontrivial": len(lines) * 15, "instance_runs": runs, "race_detector_runs": race_runs, "race_reports": race_reports,
         "race_build": bool(race),
-        "rule": "batches of 15 mixed workloads (5 structs x 3 codecs, random page sizes and records) in one process: each workload's file bytes and read-back are compared with its own baseline (i) when repeated after the others ran, (ii) after the runtime's and every generated package's buffer pools were filled with 0xAA/0xFF/0x00 garbage buffers, (iii) while 16 goroutines run the workloads concurrently; (iv) as first instances of fresh processes, alone and after an instance of another struct (incl. a twin struct with the same column paths and repetition types but other physical types), in both orders; the same under the Go race detector; non-trivial = distinct workload per batch",
+        "rule": "batches of 24 mixed workloads (8 structs x 3 codecs, random page sizes and records) in one process: each workload's file bytes and read-back are compared with its own baseline (i) when repeated after the others ran, (ii) after the runtime's and every generated package's buffer pools were filled with 0xAA/0xFF/0x00 garbage buffers, (ii-b) after other writer instances failed (sinks failing at their 2nd..12th write, persistently and transiently), (iii) while 16 goroutines run the workloads concurrently; (iv) as first instances of fresh processes, alone and after an instance of another struct (incl. a twin struct with the same column paths and repetition types but other physical types), in both orders; the same under the Go race detector; non-trivial = distinct workload per batch",
         "samples": [lines[0][:300]],
         "tie": "byte equality of outputs across repeat / poisoned-pool / concurrent runs; inventories (Get/defer-Put pairing, package-level variables) regenerated from the source",
         "tie_disagreements": len(tie_breaks), "property_failures_on_impl": len(prop_fail),
